@@ -22,7 +22,37 @@ pub fn check_case(ctx: &Ctx, stream: &str, idx: u64, label: &str, cfg: &WCfg, en
             .set("what", what)
             .set("observed", more)
     };
-    let bytes = if use_finish {
+    // a few files are written straight to a real file on disk (File and BufWriter<File>)
+    let hcase = gen::case_hash(cfg, entries);
+    let to_disk = hcase % 40 == 7 && entries.iter().map(|(k, v)| k.len() + v.len()).sum::<usize>() < 2_000_000;
+    let bytes = if to_disk {
+        let path = std::env::temp_dir().join(format!("vh-c01w-{}-{:x}", std::process::id(), hcase));
+        let r = guarded(|| -> Result<Vec<u8>, String> {
+            let f = std::fs::File::create(&path).map_err(|e| e.to_string())?;
+            if hcase % 80 == 7 {
+                let mut w = cfg.builder().build(f);
+                for (k, v) in entries {
+                    w.insert(k, v).map_err(|e| format!("insert io error: {}", e))?;
+                }
+                w.finish().map_err(|e| format!("finish io error: {}", e))?;
+            } else {
+                let mut w = cfg.builder().build(std::io::BufWriter::new(f));
+                for (k, v) in entries {
+                    w.insert(k, v).map_err(|e| format!("insert io error: {}", e))?;
+                }
+                // into_inner flushes the writer's sink (the BufWriter) before handing it back
+                let bw = w.into_inner().map_err(|e| format!("into_inner io error: {}", e))?;
+                drop(bw);
+            }
+            std::fs::read(&path).map_err(|e| e.to_string())
+        });
+        let _ = std::fs::remove_file(&path);
+        ctx.count("files_written_to_disk", 1);
+        match r {
+            Ok(x) => x,
+            Err(p) => Err(format!("panic: {}", p)),
+        }
+    } else if use_finish {
         // finish() on a writer over a shared buffer sink
         let r = guarded(|| -> Result<Vec<u8>, String> {
             // half of these sinks accept writes only partially or interrupt them (C11 compares the
